@@ -2,6 +2,7 @@ package props
 
 import (
 	"bytes"
+	"fmt"
 	"math/rand/v2"
 	"strings"
 	"testing"
@@ -214,6 +215,60 @@ func TestC02(t *testing.T) {
 			c02Sequence(r, key, []*builtMsg{pre, b, pre})
 		}
 	}
+
+	// (L) every line length 0..300 and the lengths around the usual buffer sizes, as a data line and
+	// as a comment line, between two plain messages (an encoder that assembles lines in a fixed
+	// buffer is wrong at exactly one length).
+	lens := []int{}
+	for l := 0; l <= 300; l++ {
+		lens = append(lens, l)
+	}
+	for _, c := range []int{512, 1024, 2048, 4096, 8192, 16384, 32768, 65536} {
+		for d := -8; d <= 2; d++ {
+			lens = append(lens, c+d)
+		}
+	}
+	for i, l := range lens {
+		if !r.Mine("L", i) {
+			continue
+		}
+		key := fw.Key("L", i)
+		r.Begin(key, fmt.Sprintf("line length %d", l))
+		payload := strings.Repeat("z", l)
+		plain := func(d string) *builtMsg {
+			b := &builtMsg{Msg: &sse.Message{}, Model: &ref.Msg{}, Ops: []string{"AppendData(" + d + ")"}}
+			b.Msg.AppendData(d)
+			b.Model.Append(false, d)
+			return b
+		}
+		for _, comment := range []bool{false, true} {
+			b := &builtMsg{Msg: &sse.Message{}, Model: &ref.Msg{}}
+			if comment {
+				b.Msg.AppendComment(payload)
+				b.Model.Append(true, payload)
+				b.Msg.AppendData("tail")
+				b.Model.Append(false, "tail")
+			} else {
+				b.Msg.AppendData(payload, "tail")
+				b.Model.Append(false, payload, "tail")
+			}
+			b.Ops = []string{fmt.Sprintf("line of %d bytes (comment=%v) then data tail", l, comment)}
+			c02Sequence(r, key, []*builtMsg{plain("before"), b, plain("after")})
+			// as the last line of the message
+			b2 := &builtMsg{Msg: &sse.Message{}, Model: &ref.Msg{}, Ops: []string{fmt.Sprintf("last line of %d bytes (comment=%v)", l, comment)}}
+			b2.Msg.AppendData("head")
+			b2.Model.Append(false, "head")
+			if comment {
+				b2.Msg.AppendComment(payload)
+				b2.Model.Append(true, payload)
+			} else {
+				b2.Msg.AppendData(payload)
+				b2.Model.Append(false, payload)
+			}
+			c02Sequence(r, key, []*builtMsg{plain("before"), b2, plain("after")})
+		}
+	}
+	r.Exhaustive("every data / comment line length 0..300 and -8..+2 around 512..65536, in the middle and at the end of a message")
 
 	// (C) seeded random sequences of 1-5 random messages.
 	nc := r.N(30000, 600000)
